@@ -140,6 +140,12 @@ namespace bloch::compiler {
             return false;
         };
 
+        // The analyser has no static type for the expression. Class and array types carry the
+        // Unknown primitive tag too, but they are named: those are known types.
+        bool isUndeterminedType(const SemanticAnalyser::TypeInfo& t) {
+            return t.value == ValueType::Unknown && t.className.empty();
+        }
+
         bool isArrayTypeName(const std::string& name) {
             return name.size() >= 2 && name.rfind("[]") == name.size() - 2;
         }
@@ -449,11 +455,11 @@ namespace bloch::compiler {
         }
 
         if (expected.className.empty()) {
-            if (expected.value == ValueType::Unknown || actual.value == ValueType::Unknown)
+            if (expected.value == ValueType::Unknown)
                 return true;
-            if (actual.className.empty())
-                return matchesPrimitive(expected.value, actual.value);
-            return false;
+            if (!actual.className.empty())
+                return false;  // an object or array never fits a primitive
+            return matchesPrimitive(expected.value, actual.value);
         }
 
         if (expected.isTypeParam) {
@@ -491,7 +497,9 @@ namespace bloch::compiler {
                    isSubclassOf(actual.className, expected.className);
         }
 
-        return false;
+        // The class table does not record the type arguments a generic class passes to its base,
+        // so instantiations related by inheritance are matched by class name only.
+        return isSubclassOf(actual.className, expected.className);
     }
 
     std::optional<int> SemanticAnalyser::conversionCost(const TypeInfo& expected,
@@ -836,7 +844,7 @@ namespace bloch::compiler {
 
         if (auto primType = targetInfo.value; primType != ValueType::Unknown) {
             ValueType initT = initInfo.value;
-            if (!matchesPrimitive(primType, initT)) {
+            if (!isAssignableType(targetInfo, initInfo)) {
                 if (primType == ValueType::Bit) {
                     if (auto lit = dynamic_cast<LiteralExpression*>(initializer)) {
                         if (lit->literalType == "int") {
@@ -854,7 +862,9 @@ namespace bloch::compiler {
                 }
                 throw BlochError(ErrorCategory::Semantic, line, column,
                                  "initialiser for '" + name + "' expected '" +
-                                     typeToString(primType) + "' but got '" + typeToString(initT) +
+                                     typeToString(primType) + "' but got '" +
+                                     (initInfo.className.empty() ? typeToString(initT)
+                                                                 : typeLabel(initInfo)) +
                                      "'");
             }
         } else if (!targetInfo.className.empty()) {
@@ -867,7 +877,7 @@ namespace bloch::compiler {
                                      "initialiser for '" + name + "' cannot be null");
                 }
             } else if (!isAssignableType(targetInfo, initInfo) &&
-                       initInfo.value != ValueType::Unknown) {
+                       !isUndeterminedType(initInfo)) {
                 throw BlochError(
                     ErrorCategory::Semantic, line, column,
                     "initialiser for '" + name + "' expected '" + typeLabel(targetInfo) + "'");
@@ -1696,7 +1706,7 @@ namespace bloch::compiler {
                         throw BlochError(ErrorCategory::Semantic, node.line, node.column,
                                          "return type mismatch");
                     }
-                } else if (!matchesPrimitive(m_currentReturn.value, actual.value)) {
+                } else if (!isAssignableType(m_currentReturn, actual)) {
                     throw BlochError(ErrorCategory::Semantic, node.line, node.column,
                                      "return type mismatch");
                 }
@@ -1859,7 +1869,7 @@ namespace bloch::compiler {
                         throw BlochError(ErrorCategory::Semantic, node.line, node.column,
                                          "cannot assign null to '" + node.name + "'");
                     }
-                } else if (valType.value != ValueType::Unknown &&
+                } else if (!isUndeterminedType(valType) &&
                            !isAssignableType(targetType, valType)) {
                     throw BlochError(ErrorCategory::Semantic, node.line, node.column,
                                      "assignment to '" + node.name + "' expects '" +
@@ -1885,13 +1895,13 @@ namespace bloch::compiler {
                     }
                 }
                 if (!targetType.className.empty() && valType.value != ValueType::Null &&
-                    valType.value != ValueType::Unknown && !isAssignableType(targetType, valType)) {
+                    !isUndeterminedType(valType) && !isAssignableType(targetType, valType)) {
                     throw BlochError(ErrorCategory::Semantic, node.line, node.column,
                                      "assignment to field '" + node.name + "' expects '" +
                                          typeLabel(targetType) + "'");
                 } else if (field->type.value != ValueType::Unknown &&
-                           valType.value != ValueType::Unknown &&
-                           !matchesPrimitive(targetType.value, valType.value)) {
+                           !isUndeterminedType(valType) &&
+                           !isAssignableType(targetType, valType)) {
                     throw BlochError(ErrorCategory::Semantic, node.line, node.column,
                                      "assignment to field '" + node.name + "' expects '" +
                                          typeToString(targetType.value) + "'");
@@ -2186,8 +2196,7 @@ namespace bloch::compiler {
                                              "' expected '" + typeLabel(expected) + "'");
                     }
                 } else if (expected.value != ValueType::Unknown &&
-                           actual.value != ValueType::Unknown &&
-                           !matchesPrimitive(expected.value, actual.value)) {
+                           !isUndeterminedType(actual) && !isAssignableType(expected, actual)) {
                     throw BlochError(ErrorCategory::Semantic, arg->line, arg->column,
                                      "argument #" + std::to_string(i + 1) + " to '" + name +
                                          "' expected '" + typeToString(expected.value) + "'");
@@ -2528,7 +2537,7 @@ namespace bloch::compiler {
                         throw BlochError(ErrorCategory::Semantic, node.line, node.column,
                                          "cannot assign null to '" + node.name + "'");
                     }
-                } else if (valType.value != ValueType::Unknown &&
+                } else if (!isUndeterminedType(valType) &&
                            !isAssignableType(targetType, valType)) {
                     throw BlochError(ErrorCategory::Semantic, node.line, node.column,
                                      "assignment to '" + node.name + "' expects '" +
@@ -2554,13 +2563,13 @@ namespace bloch::compiler {
                     }
                 }
                 if (!targetType.className.empty() && valType.value != ValueType::Null &&
-                    valType.value != ValueType::Unknown && !isAssignableType(targetType, valType)) {
+                    !isUndeterminedType(valType) && !isAssignableType(targetType, valType)) {
                     throw BlochError(ErrorCategory::Semantic, node.line, node.column,
                                      "assignment to field '" + node.name + "' expects '" +
                                          typeLabel(targetType) + "'");
                 } else if (field->type.value != ValueType::Unknown &&
-                           valType.value != ValueType::Unknown &&
-                           !matchesPrimitive(targetType.value, valType.value)) {
+                           !isUndeterminedType(valType) &&
+                           !isAssignableType(targetType, valType)) {
                     throw BlochError(ErrorCategory::Semantic, node.line, node.column,
                                      "assignment to field '" + node.name + "' expects '" +
                                          typeToString(targetType.value) + "'");
@@ -2634,13 +2643,13 @@ namespace bloch::compiler {
                 }
             }
             if (!targetType.className.empty() && valType.value != ValueType::Null &&
-                valType.value != ValueType::Unknown && !isAssignableType(targetType, valType)) {
+                !isUndeterminedType(valType) && !isAssignableType(targetType, valType)) {
                 throw BlochError(ErrorCategory::Semantic, node.line, node.column,
                                  "assignment to field '" + node.member + "' expects '" +
                                      typeLabel(targetType) + "'");
             } else if (targetType.value != ValueType::Unknown &&
-                       valType.value != ValueType::Unknown &&
-                       !matchesPrimitive(targetType.value, valType.value)) {
+                       !isUndeterminedType(valType) &&
+                       !isAssignableType(targetType, valType)) {
                 throw BlochError(ErrorCategory::Semantic, node.line, node.column,
                                  "assignment to field '" + node.member + "' expects '" +
                                      typeToString(targetType.value) + "'");
@@ -2691,8 +2700,9 @@ namespace bloch::compiler {
 
         auto typesCompatible =
             isAssignableType(elemType, valType) ||
-            matchesPrimitive(elemType.value, valType.value) ||
-            (elemType.value == ValueType::Int && valType.value == ValueType::Bit);
+            (valType.className.empty() &&
+             (matchesPrimitive(elemType.value, valType.value) ||
+              (elemType.value == ValueType::Int && valType.value == ValueType::Bit)));
 
         if (!typesCompatible) {
             throw BlochError(ErrorCategory::Semantic, node.line, node.column,
